@@ -1,170 +1,17 @@
 """C01: closed-form moments equal the exact expectations at every n.
 
 code -> spec trace validation: Polar's closed form for every goal monomial, evaluated at n = 0..N and at
-every parameter point exactly the way the CLI evaluates --at_n, is bound to Moment(goal, dist) of
-spec/LoopDist.tla at every step of the behaviour of spec/LoopTrace.tla.
-"""
-import random
-from fractions import Fraction as F
+every parameter point exactly the way the CLI evaluates --at_n, is bound (clause `mom') to
+Moment(goal, dist) of spec/LoopDist.tla at every step of the behaviour of spec/LoopTrace.tla.
+The program given to the spec is the generator's abstract program (generated programs) or Polar's parse
+(repository files, parser judged by C19); never anything derived from Polar's normalisation."""
+from .. import campaign as C
+from ..driver import analysis_check, standard_items
 
-from .. import absyn, campaign as C, pool
-from ..report import Run
-
-
-def build_traces(items, results, N, claim_builder=None):
-    traces, meta, notes = [], {}, {"undef": 0, "free": [], "skipped_goal_exc": 0, "unsupported": 0,
-                                   "refused": 0, "approx": 0, "other": 0}
-    for it in items:
-        res = results.get(it["id"])
-        if res is None or res.get("stage"):
-            notes["refused"] += 1
-            continue
-        for pi, pt in enumerate(res["points_used"]):
-            P = C.source_program(it, res, pi)
-            if P is None:
-                notes["unsupported"] += 1
-                continue
-            Nt = N
-            if it.get("T") is not None:
-                from .. import gen
-                Nt = min(N, gen.horizon(it["T"])[0])
-            steps = [[] for _ in range(Nt + 1)]
-            nclaims = 0
-            for g, go in res["goals"].items():
-                if "values" not in go:
-                    notes["skipped_goal_exc"] += 1
-                    continue
-                poly = absyn.mono_of(g)
-                if any(v not in P["vars"] for v, _ in poly[0][1]):
-                    continue
-                for n, val in enumerate(go["values"][pi][:Nt + 1]):
-                    cl, why = C.val_claims("mom", val, {"pi": 1, "poly": poly, "tag": g})
-                    if cl is None:
-                        if why == "free":
-                            notes["free"].append((it["id"], g, n, val))
-                        elif why == "undef":
-                            notes["undef"] += 1
-                        else:
-                            notes["other"] += 1
-                        continue
-                    if cl["t"] == "momI":
-                        notes["approx"] += 1
-                    steps[n].append(cl)
-                    nclaims += 1
-            if nclaims == 0:
-                continue
-            tid = f"{it['id']}-p{pi}"
-            traces.append({"id": tid, "vars": P["vars"], "progs": [P], "N": Nt, "steps": steps})
-            meta[tid] = (it, pi)
-    return traces, meta, notes
-
-
-def describe_failure(it, res, pi, tr, fail, D):
-    from ..encode import dec_r
-    cl = tr["steps"][fail["n"]][fail["i"] - 1] if fail["i"] > 0 else {"t": fail["t"]}
-    got = fail.get("got")
-    try:
-        gotv = str(dec_r(got, D)) if isinstance(got, dict) and "m" in got else json_safe(got)
-    except Exception:
-        gotv = json_safe(got)
-    return {"program": it["text"], "origin": it.get("origin"), "point": res["points_used"][pi],
-            "goal": cl.get("tag"), "n": fail["n"], "clause": fail["t"],
-            "polar_value": str(cl.get("val", cl.get("lo"))), "semantics_value": gotv,
-            "closed_form": res["goals"].get(cl.get("tag"), {}).get("closed_form") if cl.get("tag") else None}
-
-
-def json_safe(x):
-    import json
-    try:
-        json.dumps(x)
-        return x
-    except Exception:
-        return str(x)
+CONFIG = dict(want=["parsed", "moments"], builders=[C.b_source, C.b_moments])
 
 
 def main(tier, seed):
-    run = Run("C01", "model_checking", tier, seed)
-    quick = run.tier == "quick"
-    N = 6 if quick else 9
-    items = C.corpus_files()
-    bench = C.benchmark_files()
-    rng = random.Random(run.seed)
-    if quick:
-        rng.shuffle(bench)
-        bench = bench[:25]
-    items += bench
-    items += C.generated(run.seed, 70 if quick else 400, maxdeg=2 if quick else 3, ngoals=6 if quick else 9)
-    jobs = C.make_jobs(items, ["parsed", "moments"], N, timeout=120 if quick else 300)
-    results = pool.run_jobs(jobs)
-    traces, meta, notes = build_traces(items, results, N)
-    verdicts, stats, errors = C.run_tlc(traces)
-    by_id = {t["id"]: t for t in traces}
-    jobs_by_id = {j["id"]: j for j in jobs}
-
-    nfail = 0
-    confirmed = 0
-    decided_all_n = 0
-    for tid, v in verdicts.items():
-        it, pi = meta[tid]
-        res = results[it["id"]]
-        if v["closedAt"] >= 0:
-            # finite chain: order bound argument of DESIGN.md section 6(A)
-            dims = [len(go.get("recs", {}).get("monomials", [])) for go in res["goals"].values()]
-            if v["steps"] >= v["reach"] + 12:
-                decided_all_n += 1
-        if not v["fails"]:
-            continue
-        nfail += 1
-        # confirm in a fresh process (a history effect must not masquerade as a C01 violation)
-        fresh = pool.run_fresh(jobs_by_id[it["id"]])
-        ftr, fmeta, _ = build_traces([it], {it["id"]: fresh}, N)
-        ftr = [t for t in ftr if t["id"] == tid]
-        if not ftr:
-            run.error(f"{tid}: violation not reproducible in a fresh process (no trace)")
-            continue
-        fv, _, ferr = C.run_tlc(ftr, workers=2)
-        if tid not in fv or not fv[tid]["fails"]:
-            run.error(f"{tid}: violation disappeared in a fresh process (history dependence? see C20)")
-            continue
-        confirmed += 1
-        f0 = fv[tid]["fails"][0]
-        detail = describe_failure(it, fresh, pi, ftr[0], f0, fv[tid]["D"])
-        detail["all_failing"] = sorted({(ftr[0]["steps"][f["n"]][f["i"] - 1].get("tag"), f["n"])
-                                        for f in fv[tid]["fails"] if f["i"] > 0})[:40]
-        run.violation({it["id"], f"{it['id']}:{detail['goal']}"} | set(it.get("meta", {}).get("finding", "").split()), detail)
-    for (iid, g, n, val) in notes["free"][:50]:
-        it = next(i for i in items if i["id"] == iid)
-        run.violation({iid, f"{iid}:{g}"}, {"program": it["text"], "goal": g, "n": n, "clause": "free-symbol",
-                                             "polar_value": val})
-    for tid, e in errors.items():
-        if "not encodable" in e:
-            notes["unsupported"] += 1
-        else:
-            run.error(f"{tid}: {e}")
-
-    samples = []
-    for tid in list(verdicts)[:3]:
-        it, pi = meta[tid]
-        res = results[it["id"]]
-        samples.append({"trace": tid, "program": it["text"], "point": res["points_used"][pi],
-                        "goals": {g: [v.get("q", v) for v in go["values"][pi]] for g, go in res["goals"].items() if "values" in go},
-                        "verdict": {k: verdicts[tid][k] for k in ("steps", "reach", "closedAt", "support")}})
-    nclaims = sum(len(s) for t in traces for s in t["steps"])
-    coverage = {
-        "states": stats["distinct"], "transitions": stats["states"],
-        "traces_validated_against_impl": len(verdicts),
-        "samples": samples,
-        "programs": len(items), "programs_accepted_by_polar": sum(1 for i in items if not results.get(i["id"], {}).get("stage")),
-        "refused_or_unsupported": notes["refused"] + notes["unsupported"],
-        "moment_claims_checked": nclaims, "claims_undefined_at_point": notes["undef"],
-        "claims_via_enclosure": notes["approx"], "N": N,
-        "traces_with_failures": nfail, "confirmed_in_fresh_process": confirmed,
-        "finite_chain_traces": sum(1 for v in verdicts.values() if v["closedAt"] >= 0),
-        "exhaustive": False,
-    }
-    return run.finish(coverage, [
-        "TLC 1.8 and CommunityModules Json/FiniteSetsExt; spec/Exact.tla (self-tested against native arithmetic)",
-        "sympy evaluates Polar's closed form at integer n and rational parameter points (utils.eval_re, as --at_n does)",
-        "for repository benchmark files the source program given to the spec is Polar's own parse (parser judged by C19); for generated programs it is the generator's abstract program",
-        "parameter values are sampled (2 points per program), n is bounded by N",
-    ])
+    items = standard_items(seed, tier, 45, 400, bench_quick=20)
+    return analysis_check("C01", tier, seed, items=items, N=6 if tier == "quick" else 9,
+                          timeout=100 if tier == "quick" else 300, **CONFIG)
